@@ -4,7 +4,8 @@ tier=${1:-quick}; shift
 here=$(dirname "${BASH_SOURCE[0]}")
 export KEEP_TRY_REPO=1
 for d in "$@"; do
-	id=$(python3 -c "import json;print(json.load(open('$d/meta.json'))['property'])")
+	# the check that catches it: the property it names, or (meta.detected_by) the sibling property whose clause it really breaks
+	id=$(python3 -c "import json;m=json.load(open('$d/meta.json'));print(m.get('detected_by') or m['property'])")
 	printf "%s " "$d"
 	bash "$here/try_seeded.sh" "$d/patch.diff" "$tier" "$id" | tr '\n' ' '
 	echo
